@@ -100,13 +100,19 @@ pub struct ParametricMatchgate {
 impl ParametricGate for ParametricMatchgate {
     fn to_concrete_gates(&self, target_indices: &[usize], control_indices: &[usize]) -> Vec<Gate> {
         let params = self.parameter.get();
-        vec![Gate::controlled_matchgate(
-            target_indices[0],
-            control_indices.to_vec(),
-            params[0],
-            params[1],
-            params[2],
-        )]
+        // one matchgate per listed target, like the other parametric gates (an empty target list yields no gate)
+        target_indices
+            .iter()
+            .map(|&target_index| {
+                Gate::controlled_matchgate(
+                    target_index,
+                    control_indices.to_vec(),
+                    params[0],
+                    params[1],
+                    params[2],
+                )
+            })
+            .collect()
     }
 
     fn box_clone(&self) -> Box<dyn ParametricGate> {
